@@ -169,7 +169,7 @@ Definition all_pairs (cols : list str) : list pair := flat_map (fun a => map (fu
 (* the candidate list the implementation produced covers exactly the requested set of unordered pairs *)
 Definition cands_okb (cols : list str) (h tro label : str) (cands : list pair) : bool :=
   forallb (spec_pairb cols h tro label) cands
-  && forallb (fun p => negb (spec_pairb cols h tro label p) || umemb p cands) (all_pairs cols ++ map (fun c => (c, label)) cols).
+  && forallb (fun p => negb (spec_pairb cols h tro label p) || umemb p cands) (all_pairs cols).
 
 Definition closedb (cols : list str) (rows : list row) : bool :=
   forallb (fun r => memb (fst (rp r)) cols && memb (snd (rp r)) cols) rows.
